@@ -152,7 +152,15 @@ type NumPair struct {
 // matters for arithmetic and ordering.
 func drawPair(t *rapid.T) (a, b spec.Num, rel string) {
 	a = drawNum(t, "a")
-	switch rapid.IntRange(0, 13).Draw(t, "rel") {
+	switch rapid.IntRange(0, 14).Draw(t, "rel") {
+	case 14:
+		// two whole numbers held at low precision (their product, sum and
+		// quotient need more bits than either operand has)
+		lp := func(l string) spec.Num {
+			return spec.Num{Route: "big", Text: rapid.StringMatching(`-?[1-9][0-9]{5,40}`).Draw(t, l),
+				Prec: uint(rapid.SampledFrom([]int{24, 53, 64, 100, 128}).Draw(t, l+"p"))}
+		}
+		return lp("alp"), lp("blp"), "both-low-precision-whole"
 	case 13:
 		return a, a, "same-spec"
 	case 12:
